@@ -21,7 +21,7 @@ theorem Inv.wAlloc {s : State} (hI : Inv s) {h f v n ver : Nat} (hp : s.pc (.fr 
       have := (hI.postOk c n (by simp [hc, Pc.post])).1
       rw [hfree] at this; cases this
   obtain ⟨kindC, kindF, lockOk, frWait, freshOk, freshUniq, freshVer, freshVerT, freshNode, wFreeTaken, preOk, postOk, ownOk, rsmTaken,
-    freeTaken, pubNode, waiting, parked, listOk, scanOk, prevOk, placed, oScanOk, oNoneOk, aUnlockOk, aNextOk, aResumeOk, aFreeOk,
+    freeTaken, pubNode, waiting, parked, listOk, scanOk, prevOk, placed, freshHolder, scanL0, unlockL0, oScanOk, oNoneOk, aUnlockOk, aNextOk, aResumeOk, aFreeOk,
     noRead, cTakeOk, cRemoveOk, allocUsed, noBad⟩ := hI
   have hnl : ∀ g, n ∉ s.glist g := by
     intro g hm
@@ -67,6 +67,9 @@ theorem Inv.wAlloc {s : State} (hI : Inv s) {h f v n ver : Nat} (hp : s.pc (.fr 
     · inv_simp; grind [updA, upd, Pc.pend, Pc.locks]
     · inv_simp; grind [updA, upd]
   case placed => inv_auto
+  case freshHolder => inv_auto
+  case scanL0 => inv_auto
+  case unlockL0 => inv_auto
   case oScanOk => inv_auto
   case oNoneOk => inv_auto
   case aUnlockOk => inv_auto
